@@ -2,7 +2,7 @@
 from harness import casgen, common, refio, sessions
 
 PROP = "C02"
-MODULES = ["CassisModel.Properties.C02"]
+MODULES = ["CassisModel.Properties.C02", "CassisModel.Properties.C02Closure"]
 THEOREMS = [
     "Cassis.Json.parseFloatValue_special",
     "Cassis.Json.floatElem_roundtrip",
@@ -14,6 +14,9 @@ THEOREMS = [
     "Cassis.Json.saveJson_shape",
     "Cassis.Json.toposort_sound",
     "Cassis.TS.merge_consistent",
+    "Cassis.TS.closure_sufficient",
+    "Cassis.TS.closure_members",
+    "Cassis.TS.closure_of_closed",
 ]
 ASSUMPTIONS = [
     "the theorems cover the per-kind encode/decode pairs (float specials, array elements, the X[] range encoding of array features), the shape of the written document (sofas, then structures once each in ascending id order) and the dependency order of embedded types; the end-to-end statement load(save c) ~ c is checked on the implementation and between implementation and model (partial)",
